@@ -166,7 +166,10 @@ def s_set_rmode(self, n, mode, value):
         R = _rdict(self)
         before = dict(R)
         nn = n if type(n) is int else to_bv(n, 4)
-        ST.bank_set(R, nn, to_bv(mode, 5), to_bv(value, 32), None, hs, hv)
+        V = to_bv(value, 32)
+        if not z3.is_bv_value(V):
+            ST.WRITES_IMPL.append(V)
+        ST.bank_set(R, nn, to_bv(mode, 5), V, None, hs, hv)
         for name, t in R.items():
             if t is not before[name]:
                 self._R[RName[name]] = U(t, 32)
